@@ -395,9 +395,9 @@ func (d *Driver) Next() Event {
 			d.do(Event{Kind: "Create", Creator: a})
 			return Event{Kind: "Reset", Creator: a, Status: 13}
 		case "Delegate", "Undelegate":
-			who := d.pick(append(append([]string{}, d.P.Nodes...), "a09", "a10"))
+			who := d.pick(append(append([]string{}, d.P.Nodes...), "a09", "a10", "a11", "a12", "a08"))
 			val := d.pick([]string{"v1", "v2"})
-			amt := []int64{50000, 150000, 250000, 400000, 1000000}[d.R.Intn(5)]
+			amt := []int64{10, 1000, 50000, 150000, 250000, 400000, 1000000}[d.R.Intn(7)]
 			if k == "Delegate" && d.R.Intn(7) == 0 {
 				amt = 20000000 // more than the balance: fails after the first staking hook ran
 			}
